@@ -53,7 +53,7 @@ def scenarios(tier, seed=0):
         yield {"kind": "config", "config": c}
     # short thermal-time crops under sustained heat (pollination fails on the record's temperatures; anything that alters the
     # temperatures a later season sees shows against the run started at that season)
-    for word, irr, meth in itertools.product(["scorch", "hot", "coolnights"], ["smt", "none"] if not q else ["smt"], [2, 3]):
+    for word, irr, meth in itertools.product(["scorch", "hot", "coolnights"], ["smt", "none"] if not q else ["smt"], [1, 2, 3]):
         spec = A.to_spec(A._b(crop="maize.2", irr=irr, iwc="FC", word=word, win="w3", soil="SandyLoam"))
         spec["crop"] = {"name": "MaizeGDD", "planting": "05/01", "harvest": "08/30", "scale": None, "gddscale": 0.15, "kw": {"GDDmethod": meth}}
         spec["end"] = "2003/09/15"
